@@ -322,9 +322,22 @@ def gen_retry_waits(rnd):
         spec["steps"] = [{"name": "work", "in": ["Go"], "nw": 1, "retry": pol,
                           "acts": [{"k": "sleep", "d": 0.125}, {"k": "fail", "n": n - 1, "exc": "E1"}, {"k": "ret", "type": "StopEvent", "result": "v"}]}]
         spec["meta"] = {"n_fail": n - 1, "excs": ["E1"] * 8, "lats": [0.125] * 8, "policy": pol, "long_tail": True}
+    queued = any(st["name"] == "start" for st in spec["steps"]) and rnd.random() < 0.5
     for st in spec["steps"]:
         if st["name"] == "work":
-            st["nw"] = 4  # no queueing: the gap between a failure and its retry is then exactly the delay the engine applied
+            if queued:
+                # queueing kept: a retry that comes due while every worker is busy passes through the step's queue before it
+                # starts; the gap is then only bounded from below by the documented delay (its retry count must survive the queue)
+                st["nw"] = 1
+                for s0 in spec["steps"]:
+                    if s0["name"] == "start":
+                        s0["acts"][0]["items"] = [{} for _ in range(rnd.randint(3, 4))]
+                for s0 in spec["steps"]:
+                    if s0["name"] == "sink":
+                        s0["acts"][0]["types"] = ["EvB"] * len(next(x for x in spec["steps"] if x["name"] == "start")["acts"][0]["items"])
+                spec["meta"]["queued"] = True
+            else:
+                st["nw"] = 4  # no queueing: the gap between a failure and its retry is then exactly the delay the engine applied
     return spec
 
 
